@@ -21,9 +21,9 @@ import subprocess
 from kernel import core, bfg
 
 KINDS = ['static', 'shared', 'dual', 'whole']
-DIRSETS = {2: [('', '', ''), ('', 'sub', 'a/b'), ('a/b', '', 'sub'), ('sub', 'a/b', ''), ('sub', 'sub', 'a/b')],
-           1: [('', ''), ('sub', ''), ('', 'a/b'), ('sub', 'a/b')],
-           3: [('', '', '', ''), ('', 'sub', 'a/b', 'c'), ('a/b', 'c', '', 'sub')]}
+DIRSETS = {2: [('app', 'applib', 'ap'), ('', 'sub', 'a/b'), ('', '', ''), ('a/b', '', 'sub'), ('sub', 'a/b', ''), ('sub', 'sub', 'a/b')],
+           1: [('', ''), ('sub', ''), ('', 'a/b'), ('sub', 'a/b'), ('lib', 'lib64'), ('a/bc', 'a/b')],
+           3: [('', '', '', ''), ('x', 'xy', 'xyz', 'x/y'), ('a/b', 'c', '', 'sub')]}
 
 
 def instances(n):
